@@ -12,6 +12,7 @@ import (
 	"sort"
 	"strconv"
 	"strings"
+	"time"
 
 	astisub "github.com/asticode/go-astisub"
 )
@@ -545,6 +546,50 @@ func init() {
 		}
 	}}
 
+	// io.wsize <format>: the destination receives the whole document whatever its size: a one-cue list whose text
+	// grows one character at a time past three buffer sizes; the number of bytes handed over grows by one each time
+	// and the document reads back with the full text (sampled)
+	streams["io.wsize"] = stream{exec: func(a []string) string {
+		f := a[0]
+		mk := func(k int) *astisub.Subtitles {
+			s := astisub.NewSubtitles()
+			s.Items = append(s.Items, &astisub.Item{StartAt: time.Second, EndAt: 2 * time.Second,
+				Lines: []astisub.Line{{Items: []astisub.LineItem{{Text: "x" + strings.Repeat("a", k)}}}}})
+			return s
+		}
+		size := func(k int) (int, []byte, error) {
+			w := &faultWriter{cap: 1 << 30}
+			err := writeRaw(f, mk(k), w)
+			return len(w.got), w.got, err
+		}
+		base, _, err := size(0)
+		if err != nil {
+			return "err " + errClass(err)
+		}
+		for k := 1; k <= 3*4096+64; k++ {
+			n, doc, err := size(k)
+			if err != nil {
+				return fmt.Sprintf("err at k=%d %s", k, errClass(err))
+			}
+			if n != base+k {
+				return fmt.Sprintf("size-jump k=%d delivered=%d want=%d", k, n, base+k)
+			}
+			if k%509 == 0 {
+				back, err := readWith(f, bytes.NewReader(doc))
+				if err != nil || len(back.Items) != 1 || len(back.Items[0].Lines) != 1 || len(back.Items[0].Lines[0].Items) != 1 ||
+					len(back.Items[0].Lines[0].Items[0].Text) != k+1 {
+					return fmt.Sprintf("read-back k=%d", k)
+				}
+			}
+		}
+		return "linear"
+	}, gen: func(c *ctx) {
+		for _, f := range []string{"srt", "vtt", "ssa", "ttml"} {
+			c.do("io.wsize " + f)
+			c.count("sweeps")
+		}
+	}}
+
 	// io.file: the file-level helpers report missing / uncreatable files
 	streams["io.file"] = stream{exec: func(a []string) string {
 		dir, _ := ioutil.TempDir("", "verif-io-")
@@ -592,6 +637,33 @@ func init() {
 				return "file-differs"
 			}
 			return "ok"
+		case "write-over":
+			// the destination already exists and is longer than what is written now: nothing of the old file is left
+			long, short := genSubs(newRng(3, "subs"), a[1]), genSubs(newRng(4, "subs"), a[1])
+			for len(long.Items) < 6 {
+				long.Items = append(long.Items, long.Items[len(long.Items)-1])
+			}
+			short.Items = short.Items[:1]
+			p := filepath.Join(dir, "over."+a[1])
+			if err := long.Write(p); err != nil {
+				return errClass(err)
+			}
+			if err := short.Write(p); err != nil {
+				return errClass(err)
+			}
+			var b bytes.Buffer
+			f := a[1]
+			if f == "ass" {
+				f = "ssa"
+			}
+			if err := writeRaw(f, short, &b); err != nil {
+				return "writer-" + errClass(err)
+			}
+			got, _ := ioutil.ReadFile(p)
+			if !bytes.Equal(got, b.Bytes()) {
+				return fmt.Sprintf("file-differs len=%d want=%d", len(got), b.Len())
+			}
+			return "ok"
 		case "write-ext":
 			s := genSubs(newRng(1, "subs"), "srt")
 			err := s.Write(filepath.Join(dir, "x."+a[1]))
@@ -627,6 +699,7 @@ func init() {
 				c.do("io.file write-empty " + e)
 				c.do("io.file write-full " + e)
 				c.do("io.file write-ok " + e)
+				c.do("io.file write-over " + e)
 			}
 		}
 		for _, e := range []string{"txt", "sub", "srtx", "", "SRT", "Vtt", "ts"} {
